@@ -91,12 +91,11 @@ Definition prov_update (c : comp) (s : service) : comp * list eff :=
                             if h_reg (cp_host c) then set_target (Some (h_name (cp_host c))) sr else sr)
                            (set_attrs (s_attrs s) (set_name (Some fq) (pv_txtP p))) in
   if negb (match bs_data (r_target (pv_srvP p1)) with [] => true | _ :: _ => false end) then
-    if negb (pv_confirmed p1) || negb (bs_eqb (Some fq) (r_name (pv_srv p1))) then
+    if negb (pv_confirmed p1) || negb (bs_eqb (Some fq) (r_name (pv_srv p1)))
+       || match cp_prober c with Some _ => true | None => false end then
       let '(pb, es) := confirm p1 (cp_prober c) in (mkComp (cp_host c) p1 pb, es)
     else
-      (* the pending prober (if any) is deleted, its timer with it, before publishing *)
-      let '(p2, es) := publish p1 in
-      (mkComp (cp_host c) p2 None, (match cp_prober c with Some _ => [EStop T_PROBER] | None => [] end) ++ es)
+      let '(p2, es) := publish p1 in (mkComp (cp_host c) p2 (cp_prober c), es)
   else (mkComp (cp_host c) p1 (cp_prober c), []).
 
 (* ProviderPrivate::onHostnameChanged *)
